@@ -33,6 +33,13 @@ func (w *Worker) u64Bytes(v value, bw int, signed bool) []value {
 			out[i] = uint64(byte(x >> (56 - 8*uint(i))))
 		}
 	case *Term:
+		if v.S.K == SInt {
+			enc := w.tc.Apply("IntEnc64", BV(64), v)
+			for i := 0; i < 8; i++ {
+				out[i] = simp(w.tc.Extract(enc, 63-8*i, 56-8*i))
+			}
+			return out
+		}
 		t := v
 		if signed {
 			t = w.tc.Sext(v, 64)
